@@ -90,6 +90,10 @@ def run_case(c):
         ctor = ptn.spin_molecular_hamiltonian_mpo if spin else ptn.molecular_hamiltonian_mpo
         dloc = 4 if spin else 2
         t, v = h_ham.molecular_coefficients(rng, L, c['style'])
+        if c['seed'] % 4 == 1:
+            # the same Hamiltonian in other units: every comparison below is relative to the norm of the reference operator
+            f = (1e-9, 1e7)[(c['seed'] // 4) % 2]
+            t = t * f; v = v * f
         ref = h_ham.spin_molecular_ref(t, v) if spin else h_ham.molecular_ref(t, v)
         nref = float(np.linalg.norm(ref))
         if nref == 0.0:
@@ -121,9 +125,9 @@ def run_case(c):
                 fail(name, 'shape', f'{call}.as_matrix() has shape {M.shape}, expected {ref.shape}', pname)
                 continue
             mats[opt] = M
-            if not oracle.close(M, ref):
+            if not oracle.close(M, ref, scale=nref):
                 fail(name, 'dense', f'{call}: |as_matrix - reference| = {np.linalg.norm(M - ref):.3e}, reference norm {nref:.3e}', pname)
-        if True in mats and False in mats and not oracle.close(mats[True], mats[False]):
+        if True in mats and False in mats and not oracle.close(mats[True], mats[False], scale=nref):
             fail(name, 'paths_agree', f'{name} [L={L}, style {c["style"]}, seed {c["seed"]}]: |optimized - explicit| = '
                                       f'{np.linalg.norm(mats[True] - mats[False]):.3e}, norm {nref:.3e}')
         return dict(failures=fails, nontrivial=True, key=key)
